@@ -27,6 +27,10 @@ from icontract._globals import CallableT
 # pylint: disable=unsubscriptable-object
 
 
+# A method of a built-in type bound to an instance (*e.g.*, the value of ``x.__len__``)
+_METHOD_WRAPPER_TYPE = type(object().__str__)
+
+
 def _representable(value: Any) -> bool:
     """
     Check whether we want to represent the value in the error message on contract breach.
@@ -42,6 +46,7 @@ def _representable(value: Any) -> bool:
         and not inspect.ismethod(value)
         and not inspect.ismodule(value)
         and not inspect.isbuiltin(value)
+        and not isinstance(value, _METHOD_WRAPPER_TYPE)
     )
 
 
